@@ -63,6 +63,8 @@ def rule_hc12(prog):
     if new is None:
         raise AnalysisError('BDDNonTerminalNode.__new__ not found')
     lookup = discover_lookup(prog, new)
+    if lookup is not None:
+        r1.transparent = r2.transparent = (lookup,)
     if lookup is None:
         r1.fail(Finding(
             PROP, 'R-HC-1', new.where(), new.short(), 'no-lookup',
@@ -268,7 +270,7 @@ def rule_hc3(prog, lookup, reg_fields):
             r.fail(Finding(PROP, 'R-HC-3', lookup.where(), lookup.short(),
                            'returns:%r' % (v,),
                            'the lookup returns %r, which is not an element '
-                           'of a registry it scanned' % (v,)), witness=v)
+                           'of a registry it scanned' % (v,)))
             continue
         reg = v.meta[1]
         conds = ex[-1][1]
